@@ -24,6 +24,12 @@ THEOREMS = [
     "Canopen.C16.wait_sound",
     "Canopen.C16.wait_nothing_without_match",
     "Canopen.C16.wait_burst_regression",
+    "Canopen.C16.runFast_spec",
+    "Canopen.C16.long_history",
+    "Canopen.C16.waiters_independent",
+    "Canopen.C16.mwait_refines_wait",
+    "Canopen.C16.mwait_no_lost_wakeup",
+    "Canopen.C16.mwait_first_matching",
 ]
 FINGERPRINT = [
     "canopen.emcy:EmcyConsumer.__init__",
@@ -45,7 +51,9 @@ TRUSTED = [
     "unsigned little-endian with range check, '<n>s' zero-padded and truncated, exact-size unpack)",
     "threading.Condition / time.time modelled by monitor semantics: EmcyConsumer.wait is a function "
     "of the sequence of wake-ups (what happened to the consumer while the waiter did not hold the "
-    "lock, clock reading afterwards); real scheduling is exercised by the waitrt ops, not proved",
+    "lock, clock reading afterwards); with several threads in wait() the condition variable is a list of "
+    "blocked threads and notify_all() marks all of them runnable (sysStep); real scheduling is exercised by "
+    "the waitrt and mwait ops, not proved",
     "Spec/Cia301Emcy.lean: my reading of CiA 301 7.2.7 (frame layout, error code classes)",
 ]
 ASSUMPTIONS = [
@@ -59,7 +67,13 @@ RULE = ("ops hist (frame / notify / add_callback / reset histories on a RemoteNo
         "biased to class boundaries and reset codes, registers 0..255, malformed frames of 0..12 "
         "bytes), wait (scripted Condition and clock: wake-ups with 0..3 events each, clock below / at / "
         "above the deadline, with and without code filter, all scripts of <= 3 wake-ups over a small "
-        "alphabet), waitrt (real threading.Condition, feeder thread), send / preset / pc (producer "
+        "alphabet), waitrt (real threading.Condition, feeder thread), mwait (k = 1..4 threads blocked in wait() "
+        "on the real Condition before the frames arrive, same / different / no code filters, all filter tuples "
+        "for k <= 3 over 4 filters x 5 scripts plus seeded ones, time-outs emulated by a clock jump), long "
+        "(digested histories with run-length tokens R:n:code0:cstep:reg0:ts0: n at, below and above 256, 1000, "
+        "1024, 4096, 10000 (thorough: 65535, 65536, 131073, 300000), one run > 70000 frames on every run, "
+        "callbacks / error resets / reset() / malformed frames in between), wait / waitrt / mwait entered after "
+        "such histories and while the history grows past those sizes, send / preset / pc (producer "
         "frame and producer -> bus -> consumer, codes -1..65536, registers -1..256, data 0..8 bytes), "
         "desc (quick: every high byte x 16 low bytes + seeded; thorough: all 65536 codes); "
         "non-trivial = at least one entry was logged / a frame was sent / an entry was handed to the "
@@ -127,41 +141,162 @@ def mk_consumer(nid):
     return net, node.emcy
 
 
-def apply_ev(net, cons, nid, tok, inv):
-    """run one event token against the real objects; returns True when it raised"""
+def rep_frame(code0, cstep, reg0, i):
+    """frame i of a run-length token (the op syntax, see tok_events)"""
+    code = (code0 + i * cstep) % 65536
+    return bytes([code & 0xFF, code >> 8, (reg0 + i) % 256, i & 0xFF, (i >> 8) & 0xFF, (i >> 16) & 0xFF,
+                  (i >> 24) & 0xFF, (7 * i + 3) % 256])
+
+
+def tok_events(tok):
+    """the events one token of a history stands for, as tuples ('f', data, ts) | ('n', can_id, data, ts) |
+    ('c', k) | ('r',).  `R:<n>:<code0>:<cstep>:<reg0>:<ts0>` is a run of n frames handed to on_emcy: frame i has
+    code (code0 + i*cstep) mod 2^16, register (reg0 + i) mod 256, manufacturer bytes i (32 bit LSB first) and
+    (7*i + 3) mod 256, time stamp ts0 + i."""
     a = tok.split(":")
     if a[0] == "f":
-        data, ts = unhx(a[1]), int(a[2])
-        call = lambda: cons.on_emcy(0x80 + nid, data, ts)
+        yield ("f", unhx(a[1]), int(a[2]))
     elif a[0] == "n":
-        cid, data, ts = int(a[1]), bytearray(unhx(a[2])), float(int(a[3]))
-        call = lambda: net.notify(cid, data, ts)
+        yield ("n", int(a[1]), unhx(a[2]), int(a[3]))
     elif a[0] == "c":
-        k = int(a[1])
-        call = lambda: cons.add_callback(lambda e: inv.append((k, e)))
-    elif a[0] == "r":
-        call = cons.reset
+        yield ("c", int(a[1]))
+    elif a[0] == "r" and len(a) == 1:
+        yield ("r",)
+    elif a[0] == "R":
+        n, code0, cstep, reg0, ts0 = (int(x) for x in a[1:6])
+        for i in range(n):
+            yield ("f", rep_frame(code0, cstep, reg0, i), ts0 + i)
     else:
         raise ValueError("bad event token " + tok)
+
+
+def events(toks):
+    for tok in toks:
+        yield from tok_events(tok)
+
+
+def apply_evt(net, cons, nid, evt, inv):
+    """run one event against the real objects; returns True when it raised"""
     try:
-        call()
+        if evt[0] == "f":
+            cons.on_emcy(0x80 + nid, evt[1], evt[2])
+        elif evt[0] == "n":
+            net.notify(evt[1], bytearray(evt[2]), float(evt[3]))
+        elif evt[0] == "c":
+            k = evt[1]
+            cons.add_callback(lambda e: inv.append((k, e)))
+        else:
+            cons.reset()
     except Exception:
         return True
     return False
+
+
+class TooSlow(Exception):
+    """a long history exceeded its time budget: the operation is given up, not judged (speed is no part of C16)"""
+
+
+# A history of n frames normally costs ~15 us per frame.  An implementation whose cost per frame grows with the
+# history (say a linear search in the active list) would turn the long-history operations into hours; every
+# operation therefore has a budget of 3 s + 250 us per frame of its run-length tokens, and once two operations
+# have run out of it, operations with more than SLOW_SKIP frames are not started any more.  Such operations
+# answer "too-slow", are not judged by the oracle and not compared with the model (model_skips).
+SLOW_OPS = set()
+SLOW_SKIP = 1500
+_budget = {"limit": None}
+
+
+def run_frames(op):
+    return sum(int(t.split(":")[1]) for part in op.split(" ") for t in part.split("@")[-1].split("+")
+               if t.startswith("R:"))
+
+
+def tick(i):
+    if i & 255 == 0 and _budget["limit"] is not None and _realtime.monotonic() > _budget["limit"]:
+        raise TooSlow()
+
+
+def apply_ev(net, cons, nid, tok, inv):
+    """run one token (all its events); returns True when one of them raised"""
+    raised = False
+    for i, evt in enumerate(tok_events(tok)):
+        tick(i)
+        raised = apply_evt(net, cons, nid, evt, inv) or raised
+    return raised
 
 
 def run_hist(a):
     nid = int(a[1])
     net, cons = mk_consumer(nid)
     inv, raised, alen = [], [], []
-    for i, tok in enumerate(a[2:]):
-        if apply_ev(net, cons, nid, tok, inv):
+    for i, evt in enumerate(events(a[2:])):
+        if apply_evt(net, cons, nid, evt, inv):
             raised.append(i)
         alen.append(len(cons.active))
     return (f"log={show_list(show_entry(e) for e in cons.log)};"
             f"active={show_list(show_entry(e) for e in cons.active)};"
             f"inv={show_list(f'{k}@{show_entry(e)}' for k, e in inv)};"
             f"raised={nl(raised)};alen={nl(alen)}")
+
+
+DIG_M = (1 << 61) - 1
+DIG_P = 1000003
+
+
+def digest(nums):
+    h = 0
+    for x in nums:
+        h = (h * DIG_P + x + 1) % DIG_M
+    return h
+
+
+def num_of(code, reg, data, ts):
+    return ((ts * (1 << 40) + int.from_bytes(data, "little")) * 256 + reg) * 65536 + code
+
+
+def entry_num(e):
+    """an EmcyError as one number; anything that is not a well-formed entry gets a number no entry has"""
+    ts = getattr(e, "timestamp", None)
+    if isinstance(ts, float) and ts == int(ts):
+        ts = int(ts)
+    if (isinstance(e, EmcyError) and isinstance(e.data, (bytes, bytearray)) and len(e.data) <= PAD
+            and type(e.code) is int and type(e.register) is int and type(ts) is int
+            and 0 <= e.code < 65536 and 0 <= e.register < 256 and ts >= 0):
+        return num_of(e.code, e.register, bytes(e.data), ts)
+    return (1 << 200) + int.from_bytes(show_entry(e).encode(), "little")
+
+
+def show_ends(xs, show):
+    xs = list(xs)
+    return f"{show_list(show(e) for e in xs[:2])}..{show_list(show(e) for e in xs[max(0, len(xs) - 2):])}"
+
+
+def long_summary(log, active, inv, raised, alen, num0, show):
+    memo = {}
+
+    def num(e):         # an entry sits in the log, in the active list and in one invocation per callback
+        r = memo.get(id(e))
+        if r is None:
+            r = memo[id(e)] = num0(e)
+        return r
+
+    return (f"n={len(log)};logd={digest(num(e) for e in log)};lends={show_ends(log, show)};"
+            f"an={len(active)};actd={digest(num(e) for e in active)};aends={show_ends(active, show)};"
+            f"invn={len(inv)};invd={digest(num(e) * (1 << 32) + k for k, e in inv)};"
+            f"raised={raised};alend={digest(alen)}")
+
+
+def run_long(a):
+    """a history too long to print: lengths, digests and both ends of log / active / invocations"""
+    nid = int(a[1])
+    net, cons = mk_consumer(nid)
+    inv, raised, alen = [], 0, []
+    for i, evt in enumerate(events(a[2:])):
+        tick(i)
+        if apply_evt(net, cons, nid, evt, inv):
+            raised += 1
+        alen.append(len(cons.active))
+    return long_summary(cons.log, cons.active, inv, raised, alen, entry_num, show_entry)
 
 
 def split_slash(toks):
@@ -242,6 +377,8 @@ def run_wait(a):
         try:
             r = cons.wait(filt, float(timeout)) if filt is not None else cons.wait(timeout=float(timeout))
             res = show_entry(r)
+        except TooSlow:
+            raise
         except Exception:
             res = "raised"
     finally:
@@ -249,10 +386,17 @@ def run_wait(a):
     return f"res={res};waits={cond.waits};log={len(cons.log)}"
 
 
+T_END = 10 ** 9
+
+
 def run_waitrt(a):
     """real threading.Condition: the waiter runs in its own thread; the feeder (this thread)
     delivers each batch, holding the consumer's lock, once the waiter sits in Condition.wait.
-    The deadline logic sees a frozen clock; Condition.wait uses real time."""
+    The deadline logic sees a frozen clock; Condition.wait uses real time.  A script with a short real
+    time-out (< 1 s; only for scripts that cannot hand anything over) is ended by that time-out; with a long one
+    the time-out is never awaited: once the waiter is blocked again after the last batch the clock jumps past
+    the deadline and the condition wait is made to return, which is what a time-out does (no race with the
+    machine's load, and a lost wake-up costs no real time)."""
     nid = int(a[1])
     filt = None if a[2] == "none" else int(a[2])
     # scripts that must end in a time-out of the condition variable get a short real time-out,
@@ -265,7 +409,8 @@ def run_waitrt(a):
     for tok in pre:
         apply_ev(net, cons, nid, tok, inv)
     saved = emcy_mod.time
-    emcy_mod.time = FakeClock(0)
+    clock = FakeClock(0)
+    emcy_mod.time = clock
     box = {}
 
     def waiter():
@@ -275,19 +420,108 @@ def run_waitrt(a):
             box["r"] = "raised"
 
     th = threading.Thread(target=waiter, daemon=True)
+
+    def settle():
+        limit = _realtime.monotonic() + 10.0
+        while th.is_alive() and "r" not in box and not cons.emcy_received._waiters \
+                and _realtime.monotonic() < limit:
+            _realtime.sleep(0.0001)
+
     try:
         th.start()
         for _, evs in script:
-            limit = _realtime.monotonic() + 10.0
-            while th.is_alive() and not cons.emcy_received._waiters and _realtime.monotonic() < limit:
-                _realtime.sleep(0.0001)
+            settle()
             with cons.emcy_received:
                 for tok in evs:
                     apply_ev(net, cons, nid, tok, inv)
+        if real_timeout >= 1.0:
+            settle()
+            with cons.emcy_received:
+                clock.now = float(T_END)
+                cons.emcy_received.notify_all()
         th.join(20.0)
+    except TooSlow:
+        with cons.emcy_received:        # let the waiter go before giving up
+            clock.now = float(T_END)
+            cons.emcy_received.notify_all()
+        raise
     finally:
         emcy_mod.time = saved
     return f"res={box.get('r', 'hung')};log={len(cons.log)}"
+
+
+def parse_spec(s):
+    f, t = s.split("~")
+    return (None if f == "none" else int(f)), int(t)
+
+
+def run_mwait(a):
+    """k threads block in wait() on the real threading.Condition (entered one after the other, clock frozen at
+    t0); then every batch is delivered by this thread while it holds the consumer's lock, with the clock set to
+    the batch's time, once every thread that has not returned is blocked in Condition.wait; finally the clock
+    jumps past every deadline and all condition waits are made to return (what a time-out does).  No real
+    time-out is ever reached unless the implementation loses a thread."""
+    nid, t0 = int(a[1]), int(a[2])
+    specs = [parse_spec(x) for x in a[3].split("|")]
+    pre, wakes = split_slash(a[4:])
+    script = [parse_wake(w) for w in wakes]
+    net, cons = mk_consumer(nid)
+    inv = []
+    for tok in pre:
+        apply_ev(net, cons, nid, tok, inv)
+    clock = FakeClock(t0)
+    saved = emcy_mod.time
+    emcy_mod.time = clock
+    box = {}
+    k = len(specs)
+
+    def waiter(i, filt, tmo):
+        try:
+            r = cons.wait(filt, float(tmo)) if filt is not None else cons.wait(timeout=float(tmo))
+            box[i] = show_entry(r)
+        except Exception:
+            box[i] = "raised"
+
+    threads = [threading.Thread(target=waiter, args=(i, f, t), daemon=True) for i, (f, t) in enumerate(specs)]
+
+    def settle(started):
+        """until every started thread that has not returned sits in Condition.wait"""
+        limit = _realtime.monotonic() + 10.0
+        spins = 0
+        while True:
+            pending = sum(1 for i in range(started) if i not in box)
+            if len(getattr(cons.emcy_received, "_waiters", ())) >= pending:
+                return
+            spins += 1
+            if spins % 64 == 0 and _realtime.monotonic() > limit:
+                return
+            _realtime.sleep(0 if spins < 200 else 0.0001)
+
+    try:
+        for i, th in enumerate(threads):
+            th.start()
+            settle(i + 1)
+        for now, evs in script:
+            settle(k)
+            with cons.emcy_received:
+                clock.now = float(now)
+                for tok in evs:
+                    apply_ev(net, cons, nid, tok, inv)
+        settle(k)
+        with cons.emcy_received:
+            clock.now = float(t0 + T_END)
+            cons.emcy_received.notify_all()
+        limit = _realtime.monotonic() + 30.0
+        for th in threads:
+            th.join(max(0.0, limit - _realtime.monotonic()))
+    except TooSlow:
+        with cons.emcy_received:        # let the waiters go before giving up
+            clock.now = float(t0 + T_END)
+            cons.emcy_received.notify_all()
+        raise
+    finally:
+        emcy_mod.time = saved
+    return f"res={'|'.join(box.get(i, 'hung') for i in range(k))};log={len(cons.log)}"
 
 
 def mk_producer(nid, on_send=None):
@@ -355,10 +589,36 @@ def run_desc(a):
 
 
 def run_impl(op):
+    n = run_frames(op)
+    if n == 0:
+        return run_impl_1(op)
+    if len(SLOW_OPS) >= 2 and n > SLOW_SKIP and op not in SLOW_OPS:
+        SLOW_OPS.add(op)
+    if op in SLOW_OPS:
+        return "too-slow"
+    _budget["limit"] = _realtime.monotonic() + 3.0 + n * 250e-6
+    try:
+        return run_impl_1(op)
+    except TooSlow:
+        SLOW_OPS.add(op)
+        return "too-slow"
+    finally:
+        _budget["limit"] = None
+
+
+def model_skips(op):
+    return op in SLOW_OPS
+
+
+def run_impl_1(op):
     a = op.split(" ")
     k = a[0]
     if k == "hist":
         return run_hist(a)
+    if k == "long":
+        return run_long(a)
+    if k == "mwait":
+        return run_mwait(a)
     if k == "wait":
         return run_wait(a)
     if k == "waitrt":
@@ -431,16 +691,16 @@ class RefConsumer:
         self.log, self.active, self.cbs, self.inv = [], [], [], []
         self.alen = []
 
-    def ev(self, tok):
-        a = tok.split(":")
+    def ev(self, a):
+        """one event tuple (see tok_events); returns the entry it delivers, if any"""
         ent = None
         if a[0] == "f":
-            ent = spec_entry(unhx(a[1]), int(a[2]))
+            ent = spec_entry(a[1], a[2])
         elif a[0] == "n":
-            if int(a[1]) == 0x80 + self.nid:
-                ent = spec_entry(unhx(a[2]), int(a[3]))
+            if a[1] == 0x80 + self.nid:
+                ent = spec_entry(a[2], a[3])
         elif a[0] == "c":
-            self.cbs.append(int(a[1]))
+            self.cbs.append(a[1])
         elif a[0] == "r":
             self.log, self.active = [], []
         if ent is not None:
@@ -461,8 +721,8 @@ def fields(out):
 
 def oracle_hist(a, out):
     ref = RefConsumer(int(a[1]))
-    for tok in a[2:]:
-        ref.ev(tok)
+    for evt in events(a[2:]):
+        ref.ev(evt)
     try:
         f = fields(out)
     except Exception:
@@ -481,16 +741,45 @@ def oracle_hist(a, out):
     return None
 
 
+def oracle_long(a, out):
+    """the same judgement as oracle_hist on the digested answer"""
+    ref = RefConsumer(int(a[1]))
+    nframes = 0
+    for evt in events(a[2:]):
+        if ref.ev(evt) is not None:
+            nframes += 1
+    try:
+        f = fields(out)
+    except Exception:
+        return f"unreadable answer {out!r}"
+    exp = fields(long_summary(ref.log, ref.active, ref.inv, 0, ref.alen, lambda e: num_of(*e), fmt_entry))
+    if f.get("n") != exp["n"]:
+        return (f"log holds {f.get('n')} entries ({f.get('lends')}) after a history in which {nframes} frames were "
+                f"received, one entry per frame (since the last reset() call) gives {exp['n']} ({exp['lends']})")
+    if f.get("logd") != exp["logd"] or f.get("lends") != exp["lends"]:
+        return (f"log ({f.get('n')} entries, {f.get('lends')}, digest {f.get('logd')}) is not the received "
+                f"history ({exp['lends']}, digest {exp['logd']})")
+    if (f.get("an"), f.get("actd"), f.get("aends")) != (exp["an"], exp["actd"], exp["aends"]):
+        return (f"active list holds {f.get('an')} entries ({f.get('aends')}, digest {f.get('actd')}), the entries "
+                f"since the last error reset are {exp['an']} ({exp['aends']}, digest {exp['actd']})")
+    if f.get("alend") != exp["alend"]:
+        return f"active list sizes along the history have digest {f.get('alend')}, expected {exp['alend']}"
+    if (f.get("invn"), f.get("invd")) != (exp["invn"], exp["invd"]):
+        return (f"callback invocations: {f.get('invn')} (digest {f.get('invd')}), once per frame and registered "
+                f"callback in order gives {exp['invn']} (digest {exp['invd']})")
+    return None
+
+
 def wait_expectation(nid, filt, timeout, t0, pre, wakes):
     """(expected result, burst): the next matching entry or nothing on time-out.  A wake-up with
     nothing new is a time-out of the condition variable; an entry that arrives after the deadline
     is not handed over.  `burst` = the expected entry is not the last one of its batch."""
     ref = RefConsumer(nid)
-    for tok in pre:
-        ref.ev(tok)
+    for evt in events(pre):
+        ref.ev(evt)
     deadline = t0 + timeout
     for now, evs in wakes:
-        batch = [e for e in (ref.ev(tok) for tok in evs) if e is not None]
+        batch = [e for e in (ref.ev(evt) for evt in events(evs)) if e is not None]
         if not batch:
             return "none", False, len(ref.log)
         if now > deadline:
@@ -526,6 +815,58 @@ def oracle_wait(a, out):
             return (f"wait handed {res} although the next matching entry {exp} had arrived "
                     f"(it was followed by another frame before the waiter ran: burst)")
         return f"wait handed {res}, the next matching entry / time-out rule gives {exp}"
+    return None
+
+
+def mwait_expectation(nid, specs, t0, pre, wakes):
+    """per waiting thread: the first entry matching its filter among those received after it started to wait,
+    provided the thread learns of it by its deadline; nothing otherwise.  What the other threads wait for does
+    not enter.  A batch in which no frame is received wakes nobody."""
+    ref = RefConsumer(nid)
+    for evt in events(pre):
+        ref.ev(evt)
+    batches = []
+    for now, evs in wakes:
+        batches.append((now, [e for e in (ref.ev(evt) for evt in events(evs)) if e is not None]))
+    exp = []
+    for filt, tmo in specs:
+        r = "none"
+        for now, ents in batches:
+            if not ents:
+                continue
+            if now > t0 + tmo:
+                break
+            hit = [e for e in ents if filt is None or e[0] == filt]
+            if hit:
+                r = fmt_entry(hit[0])
+                break
+        exp.append(r)
+    return exp
+
+
+def oracle_mwait(a, out):
+    nid, t0 = int(a[1]), int(a[2])
+    specs = [parse_spec(x) for x in a[3].split("|")]
+    pre, wakes = split_slash(a[4:])
+    wakes = [parse_wake(w) for w in wakes]
+    if has_api_reset(wakes):
+        return None     # reset() racing with wait(): outside the property's quantifier
+    exp = mwait_expectation(nid, specs, t0, pre, wakes)
+    try:
+        res = fields(out)["res"].split("|")
+    except Exception:
+        return f"unreadable answer {out!r}"
+    if len(res) != len(exp):
+        return f"unreadable answer {out!r}"
+    for i, (r, e) in enumerate(zip(res, exp)):
+        if r != e:
+            filt = "any code" if specs[i][0] is None else f"code {specs[i][0]}"
+            if r == "none" and len(specs) > 1:
+                return (f"thread {i} of {len(specs)} threads in wait() (waiting for {filt}) was handed nothing "
+                        f"although {e} was received while it waited (starved); all results: {'|'.join(res)}, "
+                        f"expected {'|'.join(exp)}")
+            return (f"thread {i} of {len(specs)} in wait() (waiting for {filt}) was handed {r}, the next matching "
+                    f"entry / time-out rule gives {e}; all results: {'|'.join(res)}, expected {'|'.join(exp)}")
     return None
 
 
@@ -607,8 +948,14 @@ def oracle(op, out):
     k = a[0]
     if out.startswith("HARNESS-RAISED"):
         return f"the harness could not drive the implementation: {out}"
+    if out == "too-slow":
+        return None         # given up for lack of time, see SLOW_OPS
     if k == "hist":
         return oracle_hist(a, out)
+    if k == "long":
+        return oracle_long(a, out)
+    if k == "mwait":
+        return oracle_mwait(a, out)
     if k in ("wait", "waitrt"):
         return oracle_wait(a, out)
     if k in ("send", "preset"):
@@ -624,6 +971,16 @@ def signature(op, what):
     k = op.split(" ")[0]
     if k in ("wait", "waitrt"):
         return "wait:burst-entry-not-last" if "burst)" in what else "wait:result"
+    if k == "mwait":
+        return "mwait:starved" if "(starved)" in what else "mwait:result"
+    if k == "long":
+        if what.startswith("log"):
+            return "long:log"
+        if what.startswith("active list"):
+            return "long:active"
+        if what.startswith("callback"):
+            return "long:callbacks"
+        return "long:other"
     if k == "hist":
         if what.startswith("log is"):
             return "hist:log"
@@ -643,8 +1000,15 @@ def signature(op, what):
 
 def nontrivial(op, out):
     k = op.split(" ")[0]
+    if out == "too-slow":
+        return False
     if k in ("hist", "pc"):
         return ";" in out and fields(out).get("log", "-") != "-"
+    if k == "long":
+        return out.startswith("n=") and not out.startswith("n=0;")
+    if k == "mwait":
+        return out.startswith("res=") and any(r not in ("none", "raised", "hung")
+                                              for r in fields(out)["res"].split("|"))
     if k in ("wait", "waitrt"):
         return out.startswith("res=") and not out.startswith(("res=none", "res=raised", "res=hung"))
     if k in ("send", "preset"):
@@ -657,10 +1021,21 @@ def nontrivial(op, out):
 def classify(op, out):
     a = op.split(" ")
     k = a[0]
+    if out == "too-slow":
+        return f"{k}:given-up-too-slow"
     if k == "hist":
         n = len(a) - 2
         size = "0" if n == 0 else "1-3" if n <= 3 else "4-40" if n <= 40 else "41+"
         return f"hist:len{size}"
+    if k == "long":
+        n = int(fields(out).get("n", "0")) if out.startswith("n=") else -1
+        size = "?" if n < 0 else "0-999" if n < 1000 else "1000-9999" if n < 10000 else "10000-65535" \
+            if n < 65536 else "65536+"
+        return f"long:log{size}"
+    if k == "mwait":
+        res = fields(out).get("res", "?").split("|") if out.startswith("res=") else ["?"]
+        handed = sum(1 for r in res if r not in ("none", "raised", "hung", "?"))
+        return f"mwait:k{len(a[3].split('|'))}:handed{handed}"
     if k in ("wait", "waitrt"):
         r = fields(out).get("res", "?") if out.startswith("res=") else "?"
         r = r if r in ("none", "raised", "hung", "?") else "entry"
@@ -672,29 +1047,82 @@ def classify(op, out):
     return k
 
 
+def smaller_toks(tok):
+    """shorter runs for a run-length token: n/2, 3n/4, 7n/8, … n-1"""
+    a = tok.split(":")
+    if a[0] != "R":
+        return
+    n = int(a[1])
+    step, seen = n // 2, set()
+    while step >= 1:
+        m = n - step
+        if m >= 1 and m not in seen:
+            seen.add(m)
+            yield ":".join(["R", str(m)] + a[2:])
+        step //= 2
+
+
+def smaller_lists(toks):
+    """token lists with one token removed, then with one run shortened"""
+    for i in range(len(toks)):
+        yield toks[:i] + toks[i + 1:]
+    for i, tok in enumerate(toks):
+        for t2 in smaller_toks(tok):
+            yield toks[:i] + [t2] + toks[i + 1:]
+
+
+def smaller_wakes(wakes):
+    for i in range(len(wakes)):
+        yield wakes[:i] + wakes[i + 1:]
+    for i, w in enumerate(wakes):
+        now, evs = parse_wake(w)
+        for rest in smaller_lists(evs):
+            yield wakes[:i] + [f"w@{now}@{'+'.join(rest) if rest else '-'}"] + wakes[i + 1:]
+
+
+_SHRINK = {"t0": None}
+SHRINK_BUDGET_S = 60.0
+
+
 def shrink_candidates(op):
     a = op.split(" ")
     k = a[0]
-    if k == "hist":
-        evs = a[2:]
-        for i in range(len(evs)):
-            yield " ".join(a[:2] + evs[:i] + evs[i + 1:])
+    if run_frames(op) > 0:
+        # every candidate of a long history costs its length: all such shrinking together gets a minute, after
+        # that the input is reported as it stands
+        if _SHRINK["t0"] is None:
+            _SHRINK["t0"] = _realtime.monotonic()
+        if _realtime.monotonic() - _SHRINK["t0"] > SHRINK_BUDGET_S:
+            return
+    if k in ("hist", "long"):
+        for evs in smaller_lists(a[2:]):
+            yield " ".join(a[:2] + evs)
+    elif k == "mwait":
+        specs = a[3].split("|")
+        pre, wakes = split_slash(a[4:])
+        if len(specs) > 1:
+            for i in range(len(specs)):
+                yield " ".join(a[:3] + ["|".join(specs[:i] + specs[i + 1:])] + pre + ["/"] + wakes)
+        for p2 in smaller_lists(pre):
+            yield " ".join(a[:4] + p2 + ["/"] + wakes)
+        for w2 in smaller_wakes(wakes):
+            yield " ".join(a[:4] + pre + ["/"] + w2)
+    elif k == "waitrt":
+        pre, wakes = split_slash(a[4:])
+        for p2 in smaller_lists(pre):
+            yield " ".join(a[:4] + p2 + ["/"] + wakes)
+        for w2 in smaller_wakes(wakes):
+            yield " ".join(a[:4] + pre + ["/"] + w2)
     elif k == "pc":
         calls = a[4:]
         for i in range(len(calls)):
             yield " ".join(a[:4] + calls[:i] + calls[i + 1:])
     elif k == "wait":
         pre, wakes = split_slash(a[5:])
-        for i in range(len(pre)):
-            yield " ".join(a[:5] + pre[:i] + pre[i + 1:] + ["/"] + wakes)
-        for i in range(len(wakes)):
-            yield " ".join(a[:5] + pre + ["/"] + wakes[:i] + wakes[i + 1:])
-        for i, w in enumerate(wakes):
-            now, evs = parse_wake(w)
-            for j in range(len(evs)):
-                rest = evs[:j] + evs[j + 1:]
-                w2 = f"w@{now}@{'+'.join(rest) if rest else '-'}"
-                yield " ".join(a[:5] + pre + ["/"] + wakes[:i] + [w2] + wakes[i + 1:])
+        for p2 in smaller_lists(pre):
+            yield " ".join(a[:5] + p2 + ["/"] + wakes)
+        for w2 in smaller_wakes(wakes):
+            yield " ".join(a[:5] + pre + ["/"] + w2)
 
 
 # ---- generator ---------------------------------------------------------------------------------
@@ -869,7 +1297,7 @@ def gen_waitrt(tier, rng):
     yield f"waitrt {nid} 8193 5000 f:{X}:1 / w@0@f:{Y}:2 w@0@f:{Y}:3 w@0@f:{X}:4"
     yield f"waitrt {nid} 8193 5000 / w@0@f:{Y}:2+f:{X}:4"              # burst whose last entry matches
     yield f"waitrt {nid} 8193 10 / w@0@f:{Y}:2"                 # non-matching, then time-out
-    yield f"waitrt {nid} 8193 10 / w@0@f:{X}:2+f:{Y}:3"         # the burst of the known finding
+    yield f"waitrt {nid} 8193 5000 / w@0@f:{X}:2+f:{Y}:3"       # the burst of the known finding
     n = 20 if tier == "quick" else 300
     for _ in range(n):
         code = rcode(rng)
@@ -884,6 +1312,151 @@ def gen_waitrt(tier, rng):
         t += 1
         wakes.append(f"w@0@f:{hx(frame_bytes(code, rreg(rng), rdata(rng, 5)))}:{t}")
         yield f"waitrt {nid} {filt} 5000 / " + " ".join(wakes)
+
+
+CAPS = [256, 1000, 1024, 4096, 10000, 65535, 65536]      # sizes at which a bounded log would plausibly be cut
+
+
+def rrun(rng, n, ts0, active_grows=None):
+    """a run-length token; with active_grows the code stays outside class 00xx so that `active` grows with the log"""
+    if active_grows is None:
+        active_grows = rng.random() < 0.5
+    if active_grows:
+        code0, cstep = rng.choice([0x2001, 0x8130, 0xFF00, 0x0100, rng.randrange(0x100, 0x10000)]), 0
+    else:
+        code0, cstep = rng.randrange(0, 0x10000), rng.choice([1, 37, 255, 256, 257, 4099, rng.randrange(1, 0x10000)])
+    return f"R:{n}:{code0}:{cstep}:{rng.randrange(0, 256)}:{ts0}"
+
+
+def gen_long(tier, rng):
+    """histories of thousands of frames (digested): at, just below and just above every plausible cap, one beyond
+    2^16, with callbacks registered, error resets and reset() calls in between, malformed frames"""
+    nid = 5
+    yield f"long {nid}"
+    yield f"long {nid} c:1 R:3:255:1:254:100 f:0120:7 r R:2:8193:0:0:5"
+    # one long run with two callbacks: log, active (never reset) and the invocations grow together
+    big = 70000 + rng.randrange(0, 64)
+    yield f"long {nid} c:1 c:2 {rrun(rng, big, 0, True)}"
+    # code sweeps through class 00xx again and again: active is cut while the log keeps growing
+    yield f"long {rng.randrange(1, 128)} c:3 R:{2500 + rng.randrange(0, 500)}:{rng.randrange(0, 65536)}:37:0:1000"
+    sizes = sorted({c + d for c in CAPS if c <= 10000 or tier == "thorough" for d in (-1, 0, 1)})
+    for n in sizes:
+        yield f"long {nid} c:0 {rrun(rng, n, 50, True)}"
+    if tier == "thorough":
+        yield f"long {nid} {rrun(rng, 65537, 7, False)}"
+    n_rand = 6 if tier == "quick" else 60
+    for _ in range(n_rand):
+        nid = rng.randrange(1, 128)
+        toks, ts = [], 0
+        for _ in range(rng.randrange(2, 9)):
+            x = rng.random()
+            if x < 0.55:
+                n = rng.choice([rng.randrange(1, 300), rng.randrange(300, 3000), rng.choice(CAPS[:5]) + rng.randrange(-2, 3)])
+                toks.append(rrun(rng, n, ts))
+                ts += n
+            elif x < 0.65:
+                toks.append(f"c:{rng.randrange(0, 4)}")
+            elif x < 0.72:
+                toks.append("r")
+            else:
+                ts += 1
+                toks.append(rframe_tok(rng, ts, nid))
+        yield f"long {nid} " + " ".join(toks)
+    if tier == "thorough":
+        yield f"long 5 c:1 {rrun(rng, 131073, 0, True)}"
+        yield f"long 5 {rrun(rng, 300000 + rng.randrange(0, 1000), 0, False)}"
+
+
+def gen_late_waits(tier, rng):
+    """wait() entered after a long history: the waiter must still be handed the next frame (scripted monitor,
+    real condition variable with one thread and with several)"""
+    nid = 5
+    X = hx(frame_bytes(0x2001, 1, bytes([1, 2, 3, 4, 5])))
+    Y = hx(frame_bytes(0x3001, 2, bytes(5)))
+    pres = [c + d for c in CAPS if c <= 10000 or tier == "thorough" for d in (-1, 0)] + [2500 + rng.randrange(0, 100)]
+    if tier == "thorough":
+        pres += [70001, 131072]
+    for n in pres:
+        run = rrun(rng, n, 0)
+        filt = rng.choice(["none", str(0x2001)])
+        yield f"wait {nid} {filt} 10 100 {run} / w@105@f:{X}:900000"
+        yield f"wait {nid} {0x2001} 10 100 {run} / w@105@f:{Y}:900000 w@110@f:{Y}:900001+f:{X}:900002+f:{Y}:900003"
+    # the history grows past the cap while the caller waits, in one burst and frame by frame
+    for cap in CAPS[:5]:
+        run = rrun(rng, cap - 3, 0)
+        yield f"wait {nid} {0x2001} 10 100 {run} / w@101@R:8:12289:0:0:800000 w@102@f:{X}:900000"
+        yield (f"wait {nid} {0x2001} 10 100 {run} / " +
+               " ".join(f"w@101@f:{Y}:{800000 + i}" for i in range(6)) + f" w@102@f:{X}:900000")
+    big = 70000 + rng.randrange(0, 64)
+    yield f"wait {nid} none 10 100 {rrun(rng, big, 0)} / w@105@f:{X}:900000"
+    yield f"waitrt {nid} {0x2001} 5000 {rrun(rng, 2500 + rng.randrange(0, 100), 0)} / w@0@f:{Y}:900000 w@0@f:{X}:900001"
+    yield f"waitrt {nid} none 5000 {rrun(rng, big if tier == 'thorough' else 10001, 0)} / w@0@f:{X}:900000"
+    yield (f"mwait {nid} 100 none~20|{0x2001}~20|{0x3001}~20 {rrun(rng, 2500 + rng.randrange(0, 100), 0)} / "
+           f"w@105@f:{Y}:900000 w@106@f:{X}:900001")
+    yield f"mwait {nid} 100 none~20|none~20 {rrun(rng, big if tier == 'thorough' else 4097, 0)} / w@105@f:{X}:900000"
+
+
+def gen_mwait(tier, rng):
+    """k = 1..4 threads blocked in wait() on the real condition variable before the frames arrive"""
+    nid = 5
+    XC, YC, ZC = 0x2001, 0x3001, 0x5000
+    X = hx(frame_bytes(XC, 1, bytes([1, 2, 3, 4, 5])))
+    Y = hx(frame_bytes(YC, 2, bytes(5)))
+    E = hx(frame_bytes(0x0000, 0, bytes(5)))                  # error reset frame
+    scripts = [
+        f"w@105@f:{X}:1",                                     # one frame
+        f"w@105@f:{Y}:1 w@106@f:{X}:2",                       # two frames, one wake-up each
+        f"w@105@f:{Y}:1+f:{X}:2+f:{Y}:3",                     # burst
+        f"w@105@c:1+f:0120:1 w@121@f:{X}:2 w@122@f:{Y}:3",    # nothing received; then late for time-out 20
+        f"w@105@f:{E}:1 w@120@n:{0x80 + nid}:{X}:2",          # error reset, then exactly at the deadline, via the bus
+    ]
+    filters = ["none", str(XC), str(YC), str(ZC)]
+    tmos = ["20", "30"]
+
+    def tuples(k):
+        if k == 0:
+            yield []
+            return
+        for rest in tuples(k - 1):
+            for f in filters:
+                yield rest + [f]
+
+    kmax_all = 3 if tier == "quick" else 4
+    for k in range(1, kmax_all + 1):
+        for fs in tuples(k):
+            for j, sc in enumerate(scripts):
+                if tier == "quick" and k == 3 and (len(set(fs)) == 1 or j % 2 != (filters.index(fs[0]) % 2)):
+                    continue
+                specs = "|".join(f"{f}~{tmos[(i + j) % 2]}" for i, f in enumerate(fs))
+                yield f"mwait {nid} 100 {specs} / {sc}"
+    n = 120 if tier == "quick" else 1500
+    for _ in range(n):
+        nid = rng.choice([5, rng.randrange(1, 128)])
+        k = rng.choice([2, 3, 4, 4]) if rng.random() < 0.85 else 1
+        codes = [rcode(rng) for _ in range(rng.randrange(1, 4))]
+        t0 = rng.choice([0, 100, 1700000000])
+        specs = []
+        for _ in range(k):
+            f = "none" if rng.random() < 0.35 else str(rng.choice(codes))
+            specs.append(f"{f}~{rng.choice([20, 25, 1000])}")
+        pre = rhist(rng, nid, rng.randrange(0, 4))
+        wakes, t, now = [], 5000, t0
+        for _ in range(rng.randrange(1, 6)):
+            evs = []
+            for _ in range(rng.choice([1, 1, 1, 2, 3])):
+                t += 1
+                x = rng.random()
+                if x < 0.03:
+                    evs.append("r")
+                elif x < 0.08:
+                    evs.append(f"c:{rng.randrange(4)}")
+                elif x < 0.6:
+                    evs.append(f"f:{hx(frame_bytes(rng.choice(codes), rreg(rng), rdata(rng, 5)))}:{t}")
+                else:
+                    evs.append(rframe_tok(rng, t, nid))
+            now += rng.choice([0, 1, 5, 10, 20])
+            wakes.append(f"w@{now}@{'+'.join(evs)}")
+        yield f"mwait {nid} {t0} {'|'.join(specs)} " + " ".join(pre + ["/"] + wakes)
 
 
 SEND_CODES = [-1, 0, 1, 0xFF, 0x100, 0x1000, 0x7FFF, 0x8000, 0xFF00, 0xFFFE, 0xFFFF, 0x10000, 0x12345, -0x8000]
@@ -962,14 +1535,22 @@ def gen_ops(tier, rng):
     yield from gen_hist(tier, rng)
     yield from gen_wait(tier, rng)
     yield from gen_waitrt(tier, rng)
+    yield from gen_mwait(tier, rng)
+    yield from gen_long(tier, rng)
+    yield from gen_late_waits(tier, rng)
 
 
 CORPUS = [
     # the burst that EmcyConsumer.wait lost before the repair (fixed finding): matching entry followed by
     # another frame; first with the real threading.Condition and a waiter thread, then with the scripted monitor
-    "waitrt 5 8193 10 / w@0@f:0120010102030405:2+f:0130020000000000:3",
+    "waitrt 5 8193 5000 / w@0@f:0120010102030405:2+f:0130020000000000:3",
     "wait 5 8193 10 100 / w@105@f:0120010102030405:1+f:0130020000000000:2",
     "wait 5 none 10 100 / w@105@f:0120010102030405:1+f:0130020000000000:2",
+    # more frames than any plausible bound on the log, then a caller that waits; three threads waiting at once
+    "long 3 c:1 R:2500:4096:37:0:0",
+    "wait 3 none 10 100 R:2500:4096:37:0:0 / w@105@f:30810168656c6c6f:9999",
+    "mwait 4 100 none~20|33040~20|20480~20 / w@105@f:1081110078797a00:2",
+    "mwait 4 100 none~20|none~20 / w@105@f:01ff000000000000:3",
     # the test-suite's own frames
     "hist 1 c:1 c:2 f:0120020001020304:1000 f:1090010403020100:2000 f:0000000000000000:2000",
 ]
@@ -980,7 +1561,11 @@ LEVEL_TEXT = ("Lean 4 theorems over the generated EMCY_STRUCT format and DESCRIP
               "frame is invoked once with it, in order; producer frame = CiA 301 layout and consumer decodes it to "
               "the same code/register/zero-padded data for all field values; get_desc = CiA 301 class for every "
               "code; wait() hands over the next matching entry or nothing on time-out, for all wake-up sequences "
-              "(bursts of frames between two runs of the waiter included)")
+              "(bursts of frames between two runs of the waiter included); histories of any length: the log grows by "
+              "exactly the delivered frames (the driver's linear runner is proved equal to the model); k threads in "
+              "wait(): the program is the juxtaposition of k single-waiter programs, each thread behaves as the "
+              "single-waiter model on its own view of the schedule, no wake-up is lost, and under a fair schedule "
+              "each is handed the first matching entry received since it started to wait")
 LEVEL_NOTE = ("trusted: Lean kernel + propext/Classical.choice/Quot.sound; CPython struct for '<HB5s', "
               "threading.Condition (monitor semantics) and time.time are modelled, real threads are exercised by the "
               "waitrt ops only; the correspondence is only as strong as its generator (distribution in the evidence)")
